@@ -240,7 +240,15 @@ where
         for (class, info) in self.class_info.iter() {
             // Combine feature log probabilities and class priors to get log-likelihood for each class
             let jointi = info.prior.ln();
-            let nij = x.dot(&info.feature_log_prob);
+            // A feature that is absent from a sample (x = 0) contributes nothing, even when
+            // its estimated probability is zero (`alpha = 0` and the class never saw it):
+            // 0 * ln(0) = 0, whereas a plain dot product would give NaN
+            let nij = x.map_axis(Axis(1), |row| {
+                row.iter()
+                    .zip(info.feature_log_prob.iter())
+                    .filter(|(v, _)| **v != F::zero())
+                    .fold(F::zero(), |acc, (v, l)| acc + *v * *l)
+            });
             joint_log_likelihood.insert(class, nij + jointi);
         }
 
